@@ -150,6 +150,7 @@ func checkMapOrder(c *Ctx, rule string, fs []*ssa.Function) int {
 				// uses of ph outside the body must be dominated by a sort call on ph
 				var sorts []ssa.Instruction
 				var uses []ssa.Instruction
+				partSorted := false
 				for _, r := range *ph.Referrers() {
 					if inBody(r.Block()) {
 						continue
@@ -192,7 +193,19 @@ func checkMapOrder(c *Ctx, rule string, fs []*ssa.Function) int {
 							}
 						}
 					}
+					if sl, isSl := r.(*ssa.Slice); isSl {
+						// a part of the list (its tail, say) is sorted in place through a sub-slice: which part the
+						// map loop filled and which part the sort covers is arithmetic this rule does not do
+						if ci := sortReachedFrom(sl, 0); ci != nil {
+							partSorted = true
+							continue
+						}
+					}
 					uses = append(uses, r)
+				}
+				if partSorted {
+					unknowns = append(unknowns, fmt.Sprintf("slice %s is filled in map order and a sub-slice of it is sorted in place; whether the sorted part is the part the loop filled is not decided", ph.Comment))
+					continue
 				}
 				// kept in order while it is filled (binary search + insertion), not sorted afterwards: the loop
 				// body searches the accumulator or writes it by index
@@ -315,6 +328,17 @@ func sortReachedFrom(v ssa.Value, depth int) ssa.CallInstruction {
 		case *ssa.ChangeType, *ssa.Convert, *ssa.MakeInterface, *ssa.ChangeInterface:
 			if ci := sortReachedFrom(x.(ssa.Value), depth+1); ci != nil {
 				return ci
+			}
+		case *ssa.Store:
+			// kept in a cell because the comparison literal reads it: the loads of that cell are the same list
+			if a, isA := x.Addr.(*ssa.Alloc); isA && x.Val == v && a.Referrers() != nil {
+				for _, ar := range *a.Referrers() {
+					if ld, isLd := ar.(*ssa.UnOp); isLd && ld.X == ssa.Value(a) {
+						if ci := sortReachedFrom(ld, depth+1); ci != nil {
+							return ci
+						}
+					}
+				}
 			}
 		case *ssa.Call:
 			n := calleeName(x)
